@@ -4904,6 +4904,12 @@ def _fix_duplicate_regular_imports(source: str) -> str:
             toplevel[_bound_name(alias)] = (
                 (_key(alias), node.lineno) if isinstance(node, ast.Import) else None
             )
+    # ... unless the module binds the name in another way as well
+    for node in tracing._walk_module_scope(root):
+        if isinstance(node, ast.Name) and not isinstance(node.ctx, ast.Load):
+            toplevel[node.id] = None
+        elif isinstance(node, (ast.FunctionDef, ast.AsyncFunctionDef, ast.ClassDef)):
+            toplevel[node.name] = None
 
     replacements = {}
     removals = set()
@@ -4919,6 +4925,11 @@ def _fix_duplicate_regular_imports(source: str) -> str:
                 if isinstance(node, ast.ImportFrom):
                     for alias in node.names:
                         current[_bound_name(alias)] = None
+
+                if not isinstance(node, (ast.Import, ast.ImportFrom)):
+                    # Any other statement may rebind or delete the names
+                    for name in list(current):
+                        current[name] = None
 
                 if not isinstance(node, ast.Import):
                     continue
